@@ -12,3 +12,5 @@ import TempestVerif.Props.C13
 import TempestVerif.Props.C03
 import TempestVerif.Props.C19
 import TempestVerif.Props.C11
+import TempestVerif.Props.C01
+import TempestVerif.Props.C15
